@@ -464,6 +464,7 @@ impl Check for C12Check {
             max_steps: crng.range(2, if tier == Tier::Thorough { 10 } else { 7 }) as u32,
             max_batch: 1,
             drops: false,
+            bridge_drops: false,
             dups: false,
             aborts: false,
             noops: crng.chance(1, 3),
